@@ -1,4 +1,4 @@
-import NomtModel.Store.GenFnCheck3
+import NomtModel.Store.GenFnCheck5
 /-!
 # C16 (topic: translated functions — page arithmetic of the on-disk formats)
 
@@ -59,6 +59,10 @@ theorem T16_fn_fast_iter_ones_next (w : Nat) :
       some (if Wal.PageDiff.trailingZeros w = 64 then (none, w)
             else (some (Wal.PageDiff.trailingZeros w), w &&& (Wal.U64_MAX - 2 ^ Wal.PageDiff.trailingZeros w))) :=
   GenFnCheck.fast_iter_ones_next_eq w
+
+/-- T16.fn-8 `PageDiff::join` of the current source (struct result = the two words) is the mirror's word-wise OR -/
+theorem T16_fn_page_diff_join (a b : Wal.PageDiff) :
+    GenFn.pd_join a.w0 a.w1 b.w0 b.w1 = some ((a.join b).w0, (a.join b).w1) := GenFnCheck.pd_join_eq a b
 
 example : GenFn.pd_set_changed 0 (2 ^ 63) 64 = some (0, 1) ∧ GenFn.pd_set_changed 0 0 126 = none ∧ GenFn.pd_changed 5 0 2 = some true ∧
     GenFn.pd_changed 5 0 128 = none ∧ GenFn.pd_count 7 (2 ^ 63) = some 4 ∧ GenFn.fast_iter_ones_next 12 = some (some 2, 8) ∧
